@@ -32,7 +32,14 @@ type layout struct {
 	NoALPN    bool   `json:"inner_without_alpn,omitempty"`
 	OuterALPN bool   `json:"outer_has_alpn,omitempty"`
 	InnerPad  int    `json:"inner_padding_extension_len,omitempty"` // an RFC 7685 padding EXTENSION (type 21) inside the inner hello: an ordinary extension
+	// Verbatim: the inner server name has upper-case letters and the inner ALPN list starts with an RFC 8701 GREASE id: both
+	// are reported exactly as they stand in the reconstructed hello
+	Verbatim bool `json:"mixed_case_name_and_grease_alpn,omitempty"`
 }
+
+const verbatimName = "Inner.SECRET.Example"
+
+var verbatimALPN = []string{"\x2a\x2a", "h2", "\xfa\xfa"}
 
 const innerName = "inner.secret.example"
 
@@ -71,11 +78,15 @@ func buildLayout(key echx.KeyPair, l layout) echx.Spec {
 	echIdx := slices.IndexFunc(outer, func(e tlsref.Ext) bool { return e.Type == tlsref.ExtECH })
 	// encoded inner list: SNI, ALPN, non-referenced shared (directly, unless omitted), then marker and ECH-inner inserted at their positions
 	var inner []tlsref.Ext
-	if !l.NoSNI {
-		inner = append(inner, tlsref.SNI(innerName))
-	}
-	if !l.NoALPN {
-		inner = append(inner, tlsref.ALPN("h2", "http/1.1"))
+	if l.Verbatim {
+		inner = append(inner, tlsref.SNI(verbatimName), tlsref.ALPN(verbatimALPN...))
+	} else {
+		if !l.NoSNI {
+			inner = append(inner, tlsref.SNI(innerName))
+		}
+		if !l.NoALPN {
+			inner = append(inner, tlsref.ALPN("h2", "http/1.1"))
+		}
 	}
 	if l.InnerPad > 0 {
 		inner = append(inner, tlsref.Ext{Type: tlsref.ExtPadding, Data: make([]byte, l.InnerPad-1)})
@@ -131,7 +142,7 @@ func SelfValidate(key echx.KeyPair) error {
 }
 
 func Run(r *ev.Run) {
-	r.Rule("E1 exhaustive: 3 AEADs x every subset of 6 shared extensions chosen for compression x every position of the ech_outer_extensions marker x 3 positions of the inner ECH extension x 3 outer layouts (ECH first/middle/last, unrelated extensions interleaved) x padding{0,1,31,32} x session-id length{0,1,32} x key_share 36B/1220B x uncompressed shared extensions kept/omitted x session id inside the encoded inner {empty, 7 B, 32 B differing from the outer one}, plus a size family up to 30 kB (outer hello up to 61 kB) (hellos spanning several records, in and out) small hellos fragmented by the client at 11 cut patterns (incl. 3-4 records with a last fragment of 1-12 bytes), reconstructed hellos of exactly k*2^14 and k*2^14 +-1 bytes, inner hellos without server_name and/or ALPN under outer hellos that carry them, and inner hellos carrying a padding extension (type 21) of 0/1/199 bytes; each sealed by the reference sender and fed to the real NewConn; forwarded record compared byte for byte with the reference reconstruction. distinct = distinct outer-hello byte strings")
+	r.Rule("E1 exhaustive: 3 AEADs x every subset of 6 shared extensions chosen for compression x every position of the ech_outer_extensions marker x 3 positions of the inner ECH extension x 3 outer layouts (ECH first/middle/last, unrelated extensions interleaved) x padding{0,1,31,32} x session-id length{0,1,32} x key_share 36B/1220B x uncompressed shared extensions kept/omitted x session id inside the encoded inner {empty, 7 B, 32 B differing from the outer one}, plus a size family up to 30 kB (outer hello up to 61 kB) (hellos spanning several records, in and out) small hellos fragmented by the client at 11 cut patterns (incl. 3-4 records with a last fragment of 1-12 bytes), reconstructed hellos of exactly k*2^14 and k*2^14 +-1 bytes, inner hellos without server_name and/or ALPN under outer hellos that carry them, inner hellos carrying a padding extension (type 21) of 0/1/199 bytes, and inner hellos whose server name has upper-case letters and whose ALPN list contains GREASE ids (reported verbatim); each sealed by the reference sender and fed to the real NewConn; forwarded record compared byte for byte with the reference reconstruction. distinct = distinct outer-hello byte strings")
 	r.Assume("tlsref/hpkeref reference sender is correct (validated on every run against crypto/tls and RFC 9180 vectors)", "outer hellos do not repeat an extension type")
 	key := echx.NewKey("c03", 7, echx.AllSuites, "public.example")
 	if err := SelfValidate(key); err != nil {
@@ -229,6 +240,15 @@ func Run(r *ev.Run) {
 			}
 		}
 	}
+	for _, aead := range []uint16{1, 2, 3} {
+		for _, refs := range [][]int{nil, {0, 1, 2, 3, 4, 5}} {
+			for ok := 0; ok < 3; ok++ {
+				l := layout{AEAD: aead, Refs: refs, MarkerAt: 2, ECHInAt: 0, OuterKind: ok, SID: 32, Verbatim: true}
+				evalBuilt(r, keys, l, buildLayout(key, l).Build(), ":verbatim-name-and-alpn")
+				extra++
+			}
+		}
+	}
 	// an RFC 7685 padding extension (type 21) carried INSIDE the inner hello is an ordinary extension: only the trailing zero
 	// bytes of EncodedClientHelloInner are "padding removed"
 	for _, aead := range []uint16{1, 3} {
@@ -315,6 +335,9 @@ func evalStream(r *ev.Run, keys []ech.Key, l layout, b echx.Built, stream []byte
 		}
 		if l.NoALPN {
 			wantALPN = nil
+		}
+		if l.Verbatim {
+			wantName, wantALPN = verbatimName, verbatimALPN
 		}
 		if res.ServerName != wantName || !slices.Equal(res.ALPN, wantALPN) {
 			r.Violation("reported-name-alpn"+tag, fmt.Sprintf("ServerName=%q ALPN=%v, want %q %v (the values of the reconstructed hello)", res.ServerName, res.ALPN, wantName, wantALPN), replay)
